@@ -66,9 +66,18 @@ struct Interp
          const int opid = (int) ToI(A(1)); const bool quiet = (A(2) == "1"); const std::string pat = Unesc(A(3)); const Filt f = Filt::Parse(A(4));
          const std::string fn = "SUBSCRIBE:" + pat;
          if (f.IsNone()) (void) m()->AddBool(fn.c_str(), true); else (void) m()->AddMessage(fn.c_str(), ServerSim::ArchiveWithTag(f));
+         PendingSubOp op; op.isSub = true; op.pat = pat; op.filt = f; op.quiet = quiet; op.all = false;
+         // further (pattern, filter) pairs: several SUBSCRIBE: fields, filtered and unfiltered ones mixed, in ONE SETPARAMETERS Message
+         for (size_t i=5; i+1<n; i+=2)
+         {
+            const std::string pat2 = Unesc(A(i)); const Filt f2 = Filt::Parse(A(i+1)); const std::string fn2 = "SUBSCRIBE:" + pat2;
+            if (m()->HasName(fn2.c_str())) continue;
+            if (f2.IsNone()) (void) m()->AddBool(fn2.c_str(), true); else (void) m()->AddMessage(fn2.c_str(), ServerSim::ArchiveWithTag(f2));
+            op.more.push_back(std::make_pair(pat2, f2));
+         }
          if (quiet) (void) m()->AddBool(PR_NAME_SUBSCRIBE_QUIETLY, true);
          (void) m()->AddInt32(kOpIdField, opid);
-         PendingSubOp op; op.isSub = true; op.pat = pat; op.filt = f; op.quiet = quiet; op.all = false; if (c) c->pending[opid] = op;
+         if (c) c->pending[opid] = op;
          return m;
       }
       if (((k == "unsub")&&(n >= 3))||((k == "unsuball")&&(n >= 2)))
